@@ -135,7 +135,7 @@ func diagClass(msg string) int {
 func writeModule(root string, p *Program, convs []*ConvSpec) {
 	must(os.MkdirAll(filepath.Join(root, "p"), 0o755))
 	must(os.MkdirAll(filepath.Join(root, "q"), 0o755))
-	must(os.WriteFile(filepath.Join(root, "go.mod"), []byte("module example.org/m\n\ngo 1.22\n"), 0o644))
+	must(os.WriteFile(filepath.Join(root, "go.mod"), []byte("module example.org/m\n\ngo 1.21\n"), 0o644))
 	must(os.WriteFile(filepath.Join(root, "p", "types.go"), []byte(p.declsSource(1)), 0o644))
 	must(os.WriteFile(filepath.Join(root, "q", "types.go"), []byte(p.declsSource(2)+"\nvar Q_ = 0\n"), 0o644))
 	var sb strings.Builder
